@@ -321,9 +321,14 @@ func VerifC20Workflow() {
 		v, _ := in["in"].(int)
 		return mid{V: vsymUF("f_a", v)}, nil
 	})).AddInput(START)
-	wf.AddLambdaNode("b", InvokableLambda(func(ctx context.Context, in mid) (map[string]any, error) {
-		return map[string]any{"b": vsymUF("f_b", in.V)}, nil
-	})).AddInput("a", MapFields("V", "V"))
+	type midS struct {
+		V int
+		S int
+	}
+	nb := wf.AddLambdaNode("b", InvokableLambda(func(ctx context.Context, in midS) (map[string]any, error) {
+		return map[string]any{"b": vsymUF("f_b", in.V), "s": in.S}, nil
+	}))
+	nb.AddInput("a", MapFields("V", "V")).SetStaticValue(FieldPath{"S"}, 7)
 	wf.End().AddInput("b")
 	bad := vchoose("bad", 4)
 	switch bad {
@@ -345,8 +350,10 @@ func VerifC20Workflow() {
 	x := vsymInt("x")
 	out1, e1 := r.Invoke(ctx, map[string]any{"in": x})
 	vassert(e1 == nil, "workflow runs")
+	vassert(out1["s"] == 7, "the static value reaches the node")
 	_, _ = wf.Compile(ctx) // a later attempt to compile again must not affect the first runnable
 	wf.AddLambdaNode("late", vNode("late", nil))
+	nb.SetStaticValue(FieldPath{"S"}, 8) // nor must a later change of a node's static values
 	out2, e2 := r.Invoke(ctx, map[string]any{"in": x})
 	vassert(e2 == nil, "the compiled workflow still runs after later attempts on the builder")
 	vassert(vMapEq(out1, out2), "the compiled workflow returns the same result after later attempts on the builder")
@@ -482,4 +489,71 @@ func VerifC20EdgeOrder() {
 	x := vsymInt("x")
 	_, err := r.Invoke(ctx, map[string]any{"in": x})
 	vassert(err == nil, "and runs")
+}
+
+// Cycles in all-predecessor mode, whatever else the graph contains: START->a ; a->b ; b->c ; c->END with any subset of
+// extra links {branch a->{b,END}, branch a->{c,END}, edge a->c, back edge c->b, back edge c->a, back edge b->a}; the
+// graph must be rejected exactly when it has a cycle, on every attempt, in DAG mode; in Pregel mode cycles compile.
+func VerifC20Cycles() {
+	ctx := context.Background()
+	vcfg("fifo", 1)
+	g := NewGraph[map[string]any, map[string]any]()
+	for _, k := range []string{"a", "b", "c"} {
+		_ = g.AddLambdaNode(k, vNode(k, nil))
+	}
+	var errs []error
+	errs = append(errs, g.AddEdge(START, "a"), g.AddEdge("a", "b"), g.AddEdge("b", "c"), g.AddEdge("c", END))
+	desc := ""
+	br := func(to string) *GraphBranch {
+		return NewGraphBranch(func(ctx context.Context, in map[string]any) (string, error) { return to, nil }, map[string]bool{to: true, END: true})
+	}
+	if vchoose("branch_a_b", 2) == 1 {
+		errs = append(errs, g.AddBranch("a", br("b")))
+		desc += "a?>b "
+	}
+	if vchoose("branch_a_c", 2) == 1 {
+		errs = append(errs, g.AddBranch("a", br("c")))
+		desc += "a?>c "
+	}
+	if vchoose("edge_a_c", 2) == 1 {
+		errs = append(errs, g.AddEdge("a", "c"))
+		desc += "a>c "
+	}
+	cyclic := false
+	switch vchoose("back", 5) {
+	case 1:
+		errs = append(errs, g.AddEdge("c", "b"))
+		desc += "c>b "
+		cyclic = true
+	case 2:
+		errs = append(errs, g.AddEdge("c", "a"))
+		desc += "c>a "
+		cyclic = true
+	case 3:
+		errs = append(errs, g.AddEdge("b", "a"))
+		desc += "b>a "
+		cyclic = true
+	case 4:
+		errs = append(errs, g.AddBranch("c", br("b")))
+		desc += "c?>b "
+		cyclic = true
+	}
+	for _, e := range errs {
+		vassert(e == nil, "every single construction step is legal: "+desc)
+	}
+	dag := vchoose("dag", 2) == 1
+	var opts []GraphCompileOption
+	if dag {
+		opts = append(opts, WithNodeTriggerMode(AllPredecessor))
+	}
+	_, err := g.Compile(ctx, opts...)
+	if dag && cyclic {
+		vassert(err != nil, "a cycle is rejected in all-predecessor mode, however the nodes on it are reached otherwise: "+desc)
+		_, err2 := g.Compile(ctx, opts...)
+		vassert(err2 != nil, "and on every further attempt: "+desc)
+		return
+	}
+	if !dag {
+		vassert(err == nil, "any-predecessor mode accepts the graph (cycles allowed): "+desc)
+	}
 }
